@@ -745,7 +745,14 @@ func (e *Engine) run(st *State) {
 			panic(r)
 		}
 	}()
-	for len(st.frames) > 0 && st.status == "" {
+	for st.status == "" {
+		if len(st.frames) == 0 {
+			// the running goroutine finished: continue with a runnable or suspended-parent thread
+			if !e.switchThread(st) {
+				break
+			}
+			continue
+		}
 		f := st.top()
 		in := f.blk.Instrs[f.ip]
 		f.ip++
